@@ -474,6 +474,7 @@ class Interp:
         self.memo = {}
         self.trace = bool(os.environ.get("MIRSYM_TRACE"))
         self.assumptions = []          # global facts about the symbolic inputs (z3 Bools)
+        self.fn_hooks = {}             # crate fn name -> hook(I, args, st) -> value | None (inductive hypotheses)
         from . import stdmodel, winnow
         stdmodel.register(self)
         winnow.register(self)
@@ -510,6 +511,11 @@ class Interp:
         returns [(St, value|Panic)]"""
         self.stats["calls"] += 1
         self.stats["fns"].add(fn.name)
+        hk = self.fn_hooks.get(fn.name)
+        if hk is not None:
+            r = hk(self, args, st)
+            if r is not None:
+                return [(st, r)]
         self.depth += 1
         if self.depth > 400:
             raise Unsupported("call depth > 400 in %s" % fn.name)
